@@ -18,6 +18,7 @@ for tier in ("quick", "thorough"):
             elif verdict == "MISSED":
                 res.setdefault(sid, (chk, t, "MISSED"))
 rows = []
+n_obsolete = 0
 for sid in sorted(os.listdir(os.path.join(HERE, "seeded")), key=lambda s: (s.split("-")[0], int(s.split("-")[1]) if "-" in s and s.split("-")[1].isdigit() else 0)):
     mp = os.path.join(HERE, "seeded", sid, "meta.json")
     if not os.path.exists(mp):
@@ -25,11 +26,20 @@ for sid in sorted(os.listdir(os.path.join(HERE, "seeded")), key=lambda s: (s.spl
     meta = json.load(open(mp))
     summ = re.sub(r"\s+", " ", str(meta.get("summary", ""))).replace("|", "/")
     summ = summ[:150] + ("..." if len(summ) > 150 else "")
+    status = str(meta.get("status", ""))
+    if status.startswith("obsolete"):
+        res.pop(sid, None)
+        why = re.sub(r"\s+", " ", status[9:].strip()).replace("|", "/")
+        rows.append(f"| {sid} | {summ} | not counted | {why[:220]}{'...' if len(why) > 220 else ''} |")
+        n_obsolete += 1
+        continue
     chk, tier, sig = res.get(sid, ("-", "-", "not run"))
     rows.append(f"| {sid} | {summ} | {chk} {tier} | `{sig[:70]}` |")
 table = "| seeded change | what it changes (author's summary) | caught by | first signature |\n|---|---|---|---|\n" + "\n".join(rows)
 n_det = sum(1 for s in res.values() if s[2] != "MISSED")
-head = f"{len(rows)} seeded changes, {n_det} detected by the check of their property, {sum(1 for s in res.values() if s[2] == 'MISSED')} missed.\n\n"
+head = (f"{len(rows)} seeded changes: {n_det} detected by the check named in the third column (the property's own check unless the seed's meta.json names another one with a reason), "
+        f"{sum(1 for s in res.values() if s[2] == 'MISSED')} missed, {n_obsolete} not counted (not a violation of the statement as written, or made harmless by a later repair - reason in the row), "
+        f"{len(rows) - n_det - n_obsolete - sum(1 for s in res.values() if s[2] == 'MISSED')} not yet run in the last full sweep.\n\n")
 d = open(os.path.join(HERE, "DESIGN.md")).read()
 a, b = "<!-- seed-matrix:begin -->", "<!-- seed-matrix:end -->"
 if a in d:
